@@ -160,7 +160,7 @@ def random_string(rng: random.Random) -> str:
     return "".join(rng.choice(ALPHA) if rng.random() < 0.85 else rng.choice(WORDS) for _ in range(n))
 
 
-def catalogue(vocab: Dict[str, Any]) -> List[Tuple[str, str]]:
+def catalogue(vocab: Dict[str, Any], rng: random.Random) -> List[Tuple[str, str]]:
     """Boundary catalogue; `vocab` = keyword / literal / ignore tables of the implementation under test."""
     out: List[Tuple[str, str]] = []
 
@@ -179,12 +179,17 @@ def catalogue(vocab: Dict[str, Any]) -> List[Tuple[str, str]]:
               "\u0663", "1\u0663", "\u00b2", "1\u00b2", "0x1\u00e9"):
         add("number", s)
     for w in ("bool", "byte", "uint", "int", "uint8", "uint08", "uint0", "int0", "uint64", "uint65", "int64", "int65",
-              "uint1", "int1", "uint99999999999999999999", "true", "false", "yes", "no", "True", "YES", "Bool", "BYTE",
+              "uint1", "int16", "int1", "uint99999999999999999999", "true", "false", "yes", "no", "True", "YES", "Bool", "BYTE",
               "uint8x", "uintx8", "uint_8", "int8_t", "uint8_t", "boolean", "bytes", "yesno", "notrue", "truefalse"):
         add("typeword", w)
-        for pre in ("1", "0x1", "_", "x", ".", "\u00e9", "\u0663", "\n", "-", '"a"'):
+        pres = ("1", "0x1", "_", "x", ".", "\u00e9", "\u0663", "\n", "-", '"a"')
+        sufs = ("1", "_", "x", ".", "\u00e9", "\u00b2", "[", " x", "\n", "//", "-", '"a"', "\u4e2d")
+        if w not in ("bool", "byte", "uint8", "int16", "true", "no"):     # full product for these, a sample for the rest
+            pres = rng.sample(pres, 3)
+            sufs = rng.sample(sufs, 4)
+        for pre in pres:
             add("typeword-prefixed", pre + w)
-        for suf in ("1", "_", "x", ".", "\u00e9", "\u00b2", "[", " x", "\n", "//", "-", '"a"', "\u4e2d"):
+        for suf in sufs:
             add("typeword-suffixed", w + suf)
     for kw in vocab.get("keywords", []):
         for s in (kw, kw + "1", "1" + kw, " " + kw + " ", kw + "x", "_" + kw, kw.upper(), kw.capitalize(), kw + "." + kw,
@@ -251,7 +256,7 @@ def gen_inputs(ck: Check, sizes: Dict[str, int]) -> List[Tuple[str, List[int]]]:
             out.append(("mut-char:" + o, mutate_chars(rng, w)))
     for i in range(sizes["random"]):
         out.append(("random", random_string(rng)))
-    out.extend(catalogue(vocab))
+    out.extend(catalogue(vocab, rng))
     for j in corpus():
         out.append(("corpus:" + os.path.basename(j["_path"]), "".join(chr(c) for c in j["cps"])))
     seen = set()
